@@ -159,8 +159,10 @@ Render(tpl, d) == Norm(RenderRaw(tpl, d))
 \* A construct contributes its structural class, plus a marker class when it is in its
 \* non-default state (condition false: "if:F" / "ife:F"; list absent ":A" or empty ":0").
 \* An if-else also is an "if".
-\*   prefix  ""  outside loops, "e/" in a loop body, "ee/" in a nested loop body
+\*   prefix  ""  outside loops, "e/" in a loop body, "ee/" in a nested loop body (loops, loop
+\*   variables and content); conditionals only distinguish outside / inside a loop
 Pfx(ls) == IF Len(ls) = 0 THEN "" ELSE IF Len(ls) = 1 THEN "e/" ELSE "ee/"
+PfxC(ls) == IF Len(ls) = 0 THEN "" ELSE "e/"
 
 \* non-plain literal and value classes are named without position: one class per kind of text
 SpecialVal(p, via, v) ==
@@ -177,7 +179,7 @@ Multi(s, p) ==
       \cup (IF cnt({"img"}) >= 2 THEN {p \o "multi:img"} ELSE {})
 
 CSeq(s, d, ls, par) ==
-  Multi(s, Pfx(ls)) \cup UNION {CNode(s[i], d, ls, par) : i \in 1..Len(s)}
+  Multi(s, PfxC(ls)) \cup UNION {CNode(s[i], d, ls, par) : i \in 1..Len(s)}
 
 CLoop(body, list, i, d, ls, acc) ==
   IF i > Len(list) THEN acc
@@ -188,15 +190,16 @@ NoItem == [item |-> [k |-> "none"], i |-> 0, n |-> 0]
 
 CNode(x, d, ls, par) ==
   LET p == Pfx(ls)
-      nest(k) == IF par = "" THEN {} ELSE {p \o "nest:" \o par \o ">" \o k}
+      pc == PfxC(ls)
+      nest(k) == IF par = "" THEN {} ELSE {pc \o "nest:" \o par \o ">" \o k}
       live == ls = <<>> \/ Inner(ls).item.k # "none"
   IN
   CASE x.t = "lit" -> {p \o "lit"} \cup (IF LitClass(x.n) = "p" THEN {} ELSE {"lit:" \o LitClass(x.n)})
     [] x.t = "var" -> IF HasVar(d, x.n) THEN {p \o "var"} \cup SpecialVal(p, "var", d.vars[x.n])
                       ELSE {p \o "var:missing"}
-    [] x.t = "if"  -> {p \o "if"} \cup (IF live /\ ~CondHolds(x.n, d, ls) THEN {p \o "if:F"} ELSE {})
+    [] x.t = "if"  -> {pc \o "if"} \cup (IF live /\ ~CondHolds(x.n, d, ls) THEN {pc \o "if:F"} ELSE {})
                       \cup nest("if") \cup CSeq(x.a, d, ls, "if")
-    [] x.t = "ife" -> {p \o "if", p \o "ife"} \cup (IF live /\ ~CondHolds(x.n, d, ls) THEN {p \o "ife:F"} ELSE {})
+    [] x.t = "ife" -> {pc \o "if", pc \o "ife"} \cup (IF live /\ ~CondHolds(x.n, d, ls) THEN {pc \o "ife:F"} ELSE {})
                       \cup nest("if") \cup CSeq(x.a, d, ls, "if") \cup CSeq(x.b, d, ls, "if")
     [] x.t = "each" ->
          LET absent == IF ~live THEN TRUE
